@@ -242,7 +242,7 @@ def family_plan(pid, quick, seed):
         if pid == "C13":
             plan = [("KXK", s, 6) for s in pick("KXK", 6)] + [("KXXK", s, 900) for s in pick("KXXK", 4)] + [("PROMO", s, 8) for s in pick("PROMO", 2)] + [("CASTLE", s, 6) for s in pick("CASTLE", 2)] + [("MINOR", s, 4) for s in pick("MINOR", 1)]
         elif pid == "C05":
-            plan = [("KXK", s, 3) for s in pick("KXK", 7)] + [("KXXK", s, 600) for s in pick("KXXK", 5)] + [("PROMO", s, 6) for s in pick("PROMO", 2)] + [("MINOR", s, 2) for s in pick("MINOR", 2)]
+            plan = [("KXK", s, 3) for s in pick("KXK", 7)] + [("KXXK", s, 600) for s in pick("KXXK", 5)] + [("PROMO", s, 6) for s in pick("PROMO", 2)] + [("MINOR", s, 2) for s in pick("MINOR", 2)] + [("EP", s, 3) for s in pick("EP", 4)]
         elif pid == "C02":
             plan = [("CASTLE", s, 3) for s in pick("CASTLE", 5)] + [("EP", s, 4) for s in pick("EP", 4)] + [("PROMO", s, 5) for s in pick("PROMO", 3)] + [("KXK", s, 8) for s in pick("KXK", 2)]
         elif pid == "C10":
@@ -255,7 +255,7 @@ def family_plan(pid, quick, seed):
         if pid == "C13":
             plan = [("KXK", s, 2) for s in range(64)] + [("KXXK", s, 800) for s in range(128)] + [("PROMO", s, 4) for s in range(16)] + [("CASTLE", s, 3) for s in range(10)] + [("MINOR", s, 1) for s in range(8)]
         elif pid == "C05":
-            plan = [("KXK", s, 1) for s in range(64)] + [("KXXK", s, 400) for s in range(128)] + [("PROMO", s, 2) for s in range(16)] + [("MINOR", s, 1) for s in range(8)]
+            plan = [("KXK", s, 1) for s in range(64)] + [("KXXK", s, 400) for s in range(128)] + [("PROMO", s, 2) for s in range(16)] + [("MINOR", s, 1) for s in range(8)] + [("EP", s, 1) for s in range(28)]
         elif pid == "C10":
             plan = [("PIN", s, 10) for s in range(20)] + [("KXK", s, 2) for s in range(64)] + [("EP", s, 2) for s in range(28)] + [("CASTLE", s, 2) for s in range(10)]
         elif pid == "C02":
@@ -508,6 +508,15 @@ def check_hash(pid, tier, seed):
     stride = NPROC if quick else NPROC
     outs = textgen(chk, wd, "hash", os.path.join(wd, "play.move.ndjson"), stride, range(stride), "v")
     tot, samples = replay_text(chk, wvbin, wd, "hashvar", outs, pid, "v", ("p", "q"), extra=["--seed", seed])
+    # the same variants from bases that hold every right together with a legal en-passant capture on every file
+    hb = os.path.join(CORPUS, "hashbases.fen")
+    nhb = sum(1 for l in open(hb) if l.strip() and not l.startswith("#"))
+    wv(wvbin, ["play", "--seed", chk.seed + 5, "--games", nhb, "--plies", 2, "--emit", "move", "--corpus", hb, "--out-prefix", os.path.join(wd, "hb")])
+    outs2 = textgen(chk, wd, "hash", os.path.join(wd, "hb.move.ndjson"), 1, [0], "hb")
+    tot2, _ = replay_text(chk, wvbin, wd, "hashvar", outs2, pid, "hb", ("p", "q"), extra=["--seed", seed])
+    tot["pairs"] = tot.get("pairs", 0) + tot2.get("pairs", 0)
+    for k, v in tot2.get("by_kind", {}).items():
+        tot.setdefault("by_kind", {})[k] = tot.get("by_kind", {}).get(k, 0) + v
     # (c) inside a search: the key under which each node is entered (hook event) is a function of the position and vice versa,
     # however the node is reached - roots with castling rights and en-passant targets so that right-losing moves occur
     import random
